@@ -52,6 +52,10 @@ class ScriptedRandom:
         self._private = _np.random.RandomState(seed % (2 ** 32))
 
     def _next(self, func):
+        if getattr(self, "passthrough", False):
+            v = float(_np.random.rand())     # the real global generator
+            self.log.append((func, v))
+            return v
         if self.script:
             v = self.script.pop(0)
         else:
